@@ -81,9 +81,13 @@ func Yield(site int) {
 	cur = w
 }
 
+// GlobalSiteBase: yield sites numbered from here on sit directly before a statement that mentions a
+// package-level variable (the rewriter numbers function-entry sites below it).
+const GlobalSiteBase = 1_000_000
+
 // Chooser picks the next worker to run among the runnable ones; last is the one that just
-// yielded (-1 at the start), step counts scheduling decisions.
-type Chooser func(runnable []int, last int, step int) int
+// yielded (-1 at the start), step counts scheduling decisions, site is where last yielded.
+type Chooser func(runnable []int, last int, step int, site int) int
 
 // Run executes the workers under the simulated scheduler and returns the schedule (sequence of
 // worker ids, one per decision, run-length compressed by the caller if needed).
@@ -129,7 +133,11 @@ func Run(fns []func(), choose Chooser, maxSteps int) (schedule []byte, ok bool) 
 		if len(runnable) == 0 {
 			break
 		}
-		next := choose(runnable, last, Steps)
+		site := 0
+		if last >= 0 {
+			site = yieldSite[last]
+		}
+		next := choose(runnable, last, Steps, site)
 		Steps++
 		if last >= 0 && next != last {
 			Switches++
